@@ -63,8 +63,19 @@ def build_lean(modules):
         sh([sys.executable, os.path.join(ROOT, 'tools', 'puml2lean.py'),
             os.path.join(REPO, 'doc', 'ITS_payload_fsm_continuous_mode.puml'),
             os.path.join(LEAN, 'FastPasta', 'Spec', 'DiagramGen.lean')])
+        # the state machine of the *source* is translated to Lean on every run (Spec/FsmSrcGen.lean); Proofs/FsmSrcTie.lean proves
+        # that the hand-written model is this function. If the source can no longer be translated the generated file is replaced
+        # by one that does not compile, so that the tie is reported as broken rather than silently kept from an older run.
+        gen = os.path.join(LEAN, 'FastPasta', 'Spec', 'FsmSrcGen.lean')
+        rc0, out0 = sh([sys.executable, os.path.join(ROOT, 'tools', 'src2lean.py'),
+                        os.path.join(REPO, 'fastpasta', 'src', 'analyze', 'validators', 'its', 'its_payload_fsm_cont.rs'),
+                        os.path.join(REPO, 'fastpasta', 'src', 'words', 'its', 'status_words'), gen])
+        if rc0 != 0:
+            msg = out0.strip().replace('\n', ' ')[:400].replace('-/', '- /')
+            open(gen, 'w').write('import FastPasta.Model.Fsm\n/- ' + msg + ' -/\nnamespace FastPasta\nnamespace SrcFsm\n'
+                                 'theorem source_not_translatable : False := by decide\nend SrcFsm\nend FastPasta\n')
         rc, out = sh(['lake', 'build', 'fpdriver'] + list(modules), cwd=LEAN, timeout=3600)
-        return rc == 0, out
+        return rc == 0, (out0 if rc0 != 0 else '') + out
 
 
 def build_impl():
@@ -95,9 +106,9 @@ def build_hook():
 
 
 # ------------------------------------------------------------------ axiom audit
-def audit_theorems(module, theorems):
+def audit_theorems(module, theorems, more_modules=()):
     """#print axioms for every theorem; returns (ok, {theorem: [axioms]}, log)"""
-    src = f'import {module}\n' + ''.join(f'#print axioms {t}\n' for t in theorems)
+    src = f'import {module}\n' + ''.join(f'import {m}\n' for m in more_modules) + ''.join(f'#print axioms {t}\n' for t in theorems)
     d = os.path.join(CACHE, 'audit')
     os.makedirs(d, exist_ok=True)
     path = os.path.join(d, module.replace('.', '_') + '_audit.lean')
